@@ -283,6 +283,10 @@ class Report:
             'wall_s': round(time.time() - self.t0, 2),
             'violations': len(self.violations),
         }
+        ex = ev['coverage'].get('exhaustive')
+        if ex is not None and not isinstance(ex, bool):
+            ev['coverage']['exhaustive_note'] = str(ex)
+            ev['coverage']['exhaustive'] = False
         if self.known:
             ev['coverage']['known_findings_seen'] = sorted(set(self.known))
         if self.notes:
